@@ -81,8 +81,20 @@ func c13Menu(c lockCfg, thorough bool) func(w *engb.World, st *engb.LState, dept
 			engb.LBlock{Dt: 1, Evidence: []engb.EvSpec{{Val: 1, AgeBlocks: 1, AgeSecs: 1}}},
 		)
 	}
-	// two events in one block: interacting pairs
 	cand := len(c.Powers)
+	// claims: of a sitting validator, and of one that has just left with everything it held while
+	// the consensus engine still counts its votes (two heights) and may still bring evidence against it
+	base = append(base,
+		engb.LBlock{Dt: 1, Ops: []engb.LOp{{Kind: "claim", Val: 0}}},
+		engb.LBlock{Dt: 1, Ops: []engb.LOp{{Kind: "claim", Val: cand}}},
+	)
+	if len(c.Powers) > 1 {
+		base = append(base,
+			engb.LBlock{Dt: 1, Ops: []engb.LOp{{Kind: "claim", Val: 1}}},
+			engb.LBlock{Dt: 1, Evidence: []engb.EvSpec{{Val: 1, AgeBlocks: 3, AgeSecs: 3}}},
+		)
+	}
+	// two events in one block: interacting pairs
 	pairs := []engb.LBlock{
 		{Dt: 1, Ops: []engb.LOp{{Kind: "create", Val: cand}, {Kind: "lock", Val: cand, Token: 0, Amt: amt(3)}}},
 		{Dt: 1, Ops: []engb.LOp{{Kind: "create", Val: cand}, {Kind: "lock", Val: cand, Token: 0, Amt: "1"}}},
@@ -93,6 +105,8 @@ func c13Menu(c lockCfg, thorough bool) func(w *engb.World, st *engb.LState, dept
 		{Dt: 1, Evidence: []engb.EvSpec{{Val: 0, AgeBlocks: 1, AgeSecs: 1}}, Ops: []engb.LOp{{Kind: "lock", Val: cand, Token: 0, Amt: amt(3)}}},
 	}
 	base = append(base, pairs...)
+	// the chain restarted from an exported state in mid-history: for the reference model a no-op
+	base = append(base, engb.LBlock{Dt: 1, Reimport: true})
 	return func(w *engb.World, st *engb.LState, depth int) []engb.LBlock { return base }
 }
 
